@@ -165,6 +165,10 @@ def filter_lower_max(
         t[i] = i - 1
         h[i] = i - 1
         d[i] = get_sum(u, bounds[i - 1], bounds[i] - 1)
+    for i in range(1, nb + 1):
+        if d[i] == 0:  # an interval of values with null capacities is full from the start: it is merged with the next one
+            t[i + 1] = t[i]
+            t[i] = i + 1
     for i, max_sorted_vars_i in enumerate(max_sorted_vars):
         x = ranks[max_sorted_vars_i, MIN]
         y = ranks[max_sorted_vars_i, MAX]
@@ -208,6 +212,10 @@ def filter_upper_max(
         t[i] = i + 1
         h[i] = i + 1
         d[i] = get_sum(u, bounds[i], bounds[i + 1] - 1)
+    for i in range(nb, 0, -1):
+        if d[i] == 0:  # an interval of values with null capacities is full from the start: it is merged with the previous one
+            t[i - 1] = t[i]
+            t[i] = i - 1
     for i in range(n - 1, -1, -1):
         min_sorted_vars_i = min_sorted_vars[i]
         x = ranks[min_sorted_vars_i, MAX]
@@ -409,6 +417,15 @@ def compute_domains_gcc(domains: NDArray, parameters: NDArray) -> int:
     """
     n = len(domains)
     m = (len(parameters) - 1) // 2  # number of values
+    # values with a null capacity cannot be taken: the bounds of the domains are moved away from them
+    first_value = parameters[0]
+    for i in range(n):
+        while domains[i, MIN] <= domains[i, MAX] and parameters[1 + m + domains[i, MIN] - first_value] == 0:
+            domains[i, MIN] += 1
+        while domains[i, MIN] <= domains[i, MAX] and parameters[1 + m + domains[i, MAX] - first_value] == 0:
+            domains[i, MAX] -= 1
+        if domains[i, MIN] > domains[i, MAX]:
+            return PROP_INCONSISTENCY
     bounds_nb = 2 * n + 2
     ranks = np.zeros((n, 2), dtype=np.uint16)
     bounds = np.zeros(bounds_nb, dtype=np.int32)
